@@ -928,7 +928,7 @@ pub fn minimise(rp: &Replay) -> Replay {
     best
 }
 
-fn shrink_at(g: &G, pos: usize) -> Vec<G> {
+pub fn shrink_at(g: &G, pos: usize) -> Vec<G> {
     // candidates for replacing the node at preorder position `pos`
     fn node_at<'a>(g: &'a G, pos: &mut usize) -> Option<&'a G> {
         if *pos == 0 {
